@@ -322,6 +322,9 @@ type placement struct {
 	Alias               string // alias of Chain[1]
 	ExtraSub            bool   // the target (a root chart) has an unconstrained subchart of its own
 	CRDs                bool   // root chart ships crds/
+	CRDsAt              []int  // further charts of Chain that ship crds/ (index into Chain)
+	ExtraSubCRDs        bool   // the ExtraSub subchart ships crds/
+	SiblingCRDs         bool   // the root chart has a second, unconstrained subchart "sibc" that ships crds/
 	Both                bool   // the schema is also put on the root chart, whose own defaults are goodFix
 	RootAP              bool   // placement may carry root-level additionalProperties:false
 }
@@ -343,6 +346,28 @@ func placements() []placement {
 		{Name: "leaf-off", Class: "disabled", Chain: []string{r, s, l}, Cond: []string{"", "", "leafc.enabled"}, DefOn: []string{"", "", "false"}, UserOn: e},
 		{Name: "root+sub", Class: "both", Chain: []string{r, s}, Cond: e, DefOn: e, UserOn: e, Both: true},
 		{Name: "root-crds", Class: "root", Chain: []string{r}, CRDs: true},
+	}
+}
+
+// crdPlacements: crds/ files somewhere in the chart tree, the violated schema
+// somewhere else (or in the same chart). Helm installs the crds/ of the whole
+// tree before anything is rendered, so the gate has to sit in front of that
+// for every chart of the tree, not only for the top-level one.
+func crdPlacements() []placement {
+	r, s, l := "rootc", "subc", "leafc"
+	e := []string{"", "", ""}
+	return []placement{
+		{Name: "crds-root/schema-sub", Class: "sub", Chain: []string{r, s}, Cond: e, DefOn: e, UserOn: e, CRDs: true},
+		{Name: "crds-root/schema-sub-on-by-default", Class: "sub", Chain: []string{r, s}, Cond: []string{"", "subc.enabled"}, DefOn: []string{"", "true"}, UserOn: e, CRDs: true},
+		{Name: "crds-root/schema-sub-alias", Class: "sub", Chain: []string{r, s}, Cond: e, DefOn: e, UserOn: e, Alias: "ali", CRDs: true},
+		{Name: "crds-root/schema-leaf", Class: "leaf", Chain: []string{r, s, l}, Cond: e, DefOn: e, UserOn: e, CRDs: true},
+		{Name: "crds-sub/schema-root", Class: "root", Chain: []string{r}, ExtraSub: true, ExtraSubCRDs: true},
+		{Name: "crds-sub/schema-sub", Class: "sub", Chain: []string{r, s}, Cond: e, DefOn: e, UserOn: e, CRDsAt: []int{1}},
+		{Name: "crds-sibling/schema-sub", Class: "sub", Chain: []string{r, s}, Cond: e, DefOn: e, UserOn: e, SiblingCRDs: true},
+		{Name: "crds-root+sub/schema-sub", Class: "sub", Chain: []string{r, s}, Cond: e, DefOn: e, UserOn: e, CRDs: true, CRDsAt: []int{1}},
+		{Name: "crds-root+sub/schema-root+sub", Class: "both", Chain: []string{r, s}, Cond: e, DefOn: e, UserOn: e, Both: true, CRDs: true, CRDsAt: []int{1}},
+		{Name: "crds-sub/schema-leaf", Class: "leaf", Chain: []string{r, s, l}, Cond: e, DefOn: e, UserOn: e, CRDsAt: []int{1}},
+		{Name: "crds-root/schema-sub-off-by-default", Class: "disabled", Chain: []string{r, s}, Cond: []string{"", "subc.enabled"}, DefOn: []string{"", "false"}, UserOn: e, CRDs: true},
 	}
 }
 
@@ -387,6 +412,13 @@ func (p placement) build(schema string, L layers) (*hx.ChartSpec, map[string]any
 		sub.Values = obj("n", "sub-own")
 		charts[0].Subcharts = []*hx.ChartSpec{sub}
 		charts[0].Deps = []hx.DepSpec{{Name: "subc"}}
+		sub.CRDs = p.ExtraSubCRDs
+	}
+	if p.SiblingCRDs {
+		sib := newChart("sibc")
+		sib.CRDs = true
+		charts[0].Subcharts = append(charts[0].Subcharts, sib)
+		charts[0].Deps = append(charts[0].Deps, hx.DepSpec{Name: "sibc"})
 	}
 	t := len(charts) - 1
 	target := charts[t]
@@ -416,6 +448,9 @@ func (p placement) build(schema string, L layers) (*hx.ChartSpec, map[string]any
 		put(charts[0].Values, nil, copyMap(goodFix))
 	}
 	charts[0].CRDs = p.CRDs
+	for _, i := range p.CRDsAt {
+		charts[i].CRDs = true
+	}
 	return charts[0], user
 }
 
